@@ -274,5 +274,5 @@ def replay(ctx, case):
     check_case(ctx, case)
 
 
-SUBS = [Sub("convert", run, replay, quick=300, thorough=12000,
+SUBS = [Sub("convert", run, replay, quick=300, thorough=8000,
             min_per_shard=10)]
